@@ -31,37 +31,42 @@ def descS (G : MG) (v : Nat) : List Nat :=
 def orient (G : MG) (i j : Nat) : MG :=
   { G with un := G.un.filter (fun e => !(e == (i, j) || e == (j, i))), dir := G.dir ++ [(i, j)] }
 
-/-- `_meek_rule1`: `i - j` and some parent `k` of `i` not adjacent to `j` -/
-def rule1 (G : MG) (i j : Nat) : MG × Bool :=
-  if hasUn G i j && (G.parents i).any (fun k => !adj G k j) then (orient G i j, true) else (G, false)
+/-- common shape of the four rules: `if graph.has_edge(i, j, undirected): … if <condition>:
+    graph.orient_uncertain_edge(i, j); added_arrows = True`; returns the graph and `added_arrows` -/
+def fire (G : MG) (i j : Nat) (c : Bool) : MG × Bool :=
+  if hasUn G i j && c then (orient G i j, true) else (G, false)
 
-/-- `_meek_rule2`: `i - j` and some node in `descendants(i) ∩ ancestors(j)`
+/-- condition of `_meek_rule1`: some parent `k` of `i` is not adjacent to `j` -/
+def cond1 (G : MG) (i j : Nat) : Bool := (G.parents i).any fun k => !adj G k j
+def rule1 (G : MG) (i j : Nat) : MG × Bool := fire G i j (cond1 G i j)
+
+/-- condition of `_meek_rule2`: `descendants(i) ∩ ancestors(j)` is non-empty
     (the code filters both sets by "no directed edge back", mirrored literally) -/
-def rule2 (G : MG) (i j : Nat) : MG × Bool :=
-  if hasUn G i j then
-    let childI := (descS G i).filter (fun k => !hasDir G k i)
-    let parentJ := (ancS G j).filter (fun k => !hasDir G j k)
-    if childI.any (fun k => decide (k ∈ parentJ)) then (orient G i j, true) else (G, false)
-  else (G, false)
+def cond2 (G : MG) (i j : Nat) : Bool :=
+  let childI := (descS G i).filter (fun k => !hasDir G k i)
+  let parentJ := (ancS G j).filter (fun k => !hasDir G j k)
+  childI.any (fun k => decide (k ∈ parentJ))
+def rule2 (G : MG) (i j : Nat) : MG × Bool := fire G i j (cond2 G i j)
 
 /-- `itertools.combinations(l, 2)` -/
 def combos : List Nat → List (Nat × Nat)
   | [] => []
   | a :: t => t.map (a, ·) ++ combos t
 
-/-- `_meek_rule3`: `i - j`, two non-adjacent neighbours `k`, `l` of `i` with `k -> j <- l`, `i - k`, `i - l` -/
-def rule3 (G : MG) (inner : List Nat) (i j : Nat) : MG × Bool :=
-  if hasUn G i j && (combos (nbrs G inner i)).any (fun (k, l) =>
-      !adj G k l && !(hasDir G j k || !hasDir G k j) && !(hasDir G j l || !hasDir G l j) &&
-      (hasUn G k i && hasUn G l i))
-  then (orient G i j, true) else (G, false)
+/-- condition of `_meek_rule3`: two non-adjacent neighbours `k`, `l` of `i` with `k -> j <- l`,
+    `i - k`, `i - l` -/
+def cond3 (G : MG) (inner : List Nat) (i j : Nat) : Bool :=
+  (combos (nbrs G inner i)).any fun (k, l) =>
+    !adj G k l && !(hasDir G j k || !hasDir G k j) && !(hasDir G j l || !hasDir G l j) &&
+    (hasUn G k i && hasUn G l i)
+def rule3 (G : MG) (inner : List Nat) (i j : Nat) : MG × Bool := fire G i j (cond3 G inner i j)
 
-/-- `_meek_rule4` (after the fix): `i - j`, a neighbour `k ≠ j` with `i - k`, `k` not adjacent to `j`,
-    and a child `l` of `k` with `l -> j` -/
-def rule4 (G : MG) (inner : List Nat) (i j : Nat) : MG × Bool :=
-  if hasUn G i j && (nbrs G inner i).any (fun k =>
-      !(k == j || !hasUn G i k) && !adj G k j && (G.children k).any (fun l => hasDir G l j))
-  then (orient G i j, true) else (G, false)
+/-- condition of `_meek_rule4` (after the fix): a neighbour `k ≠ j` with `i - k`, `k` not adjacent
+    to `j`, and a child `l` of `k` with `l -> j` -/
+def cond4 (G : MG) (inner : List Nat) (i j : Nat) : Bool :=
+  (nbrs G inner i).any fun k =>
+    !(k == j || !hasUn G i k) && !adj G k j && (G.children k).any (fun l => hasDir G l j)
+def rule4 (G : MG) (inner : List Nat) (i j : Nat) : MG × Bool := fire G i j (cond4 G inner i j)
 
 /-- loop body for one ordered pair `(i, j)`: the four rules one after the other on the mutated graph -/
 def applyPair (G : MG) (inner : List Nat) (i j : Nat) : MG × Bool :=
